@@ -679,15 +679,28 @@ func c06Scenarios(thorough bool) []c06Scenario {
 	}
 	alphabet := []c06Op{D(0), D(1), D(2), D(3), D(6), D(7), R(3), L(0), L(1), L(2), S(8), S(5), S(0), E(0), E(1), E(2)}
 	isWriter := func(o c06Op) bool { return o.kind == opSetLimit || o.kind == opExtend }
+	// registering the same name twice is outside the statement (extension names are fresh)
+	dupExt := func(ops ...c06Op) bool {
+		seen := map[int]bool{}
+		for _, o := range ops {
+			if o.kind == opExtend {
+				if seen[o.arg] {
+					return true
+				}
+				seen[o.arg] = true
+			}
+		}
+		return false
+	}
 	out := append([]c06Scenario{}, curated...)
 	// all 2-thread scenarios: one op versus one or two ops, at least one writer
 	for _, a := range alphabet {
 		for _, b := range alphabet {
-			if isWriter(a) || isWriter(b) {
+			if (isWriter(a) || isWriter(b)) && !dupExt(a, b) {
 				out = append(out, c06Scenario{T(a), T(b)})
 			}
 			for _, b2 := range alphabet {
-				if isWriter(a) || isWriter(b) || isWriter(b2) {
+				if (isWriter(a) || isWriter(b) || isWriter(b2)) && !dupExt(a, b, b2) {
 					out = append(out, c06Scenario{T(a), T(b, b2)})
 				}
 			}
@@ -698,7 +711,7 @@ func c06Scenarios(thorough bool) []c06Scenario {
 		for j := i; j < len(alphabet); j++ {
 			for k := j; k < len(alphabet); k++ {
 				b, cc := alphabet[j], alphabet[k]
-				if isWriter(a) || isWriter(b) || isWriter(cc) {
+				if (isWriter(a) || isWriter(b) || isWriter(cc)) && !dupExt(a, b, cc) {
 					out = append(out, c06Scenario{T(a), T(b), T(cc)})
 				}
 			}
